@@ -53,12 +53,13 @@ type worldCfg struct {
 }
 
 type world struct {
-	cfg    worldCfg
-	m      *fwmgmt.Thread
-	thread *fw.Thread
-	itr    *face.InternalTransport
-	ils    *face.NDNLPLinkService
-	seq    uint32 // nonce / pit token counter
+	cfg             worldCfg
+	m               *fwmgmt.Thread
+	thread          *fw.Thread
+	itr             *face.InternalTransport
+	ils             *face.NDNLPLinkService
+	seq             uint32 // nonce / pit token counter
+	oversizeDropped int    // frames of the management component beyond the maximum packet size
 }
 
 var logOnce sync.Once
@@ -163,6 +164,12 @@ func (w *world) deliver(wire []byte, inFace uint64) ([]reply, error) {
 	w.m.VerifC17Step()
 	var out []reply
 	for _, fr := range w.itr.VerifC17TakeSent() {
+		if len(fr) > defn.MaxNDNPacketSize {
+			// InternalTransport.runReceive drops what the component sends beyond the maximum packet
+			// size ("Component trying to send too much data - DROP"): the requester never sees it
+			w.oversizeDropped++
+			continue
+		}
 		lp, _, err := spec.ReadPacket(enc.NewBufferReader(fr))
 		if err != nil || lp.LpPacket == nil {
 			return nil, fmt.Errorf("management sent an undecodable frame: %v", err)
